@@ -78,8 +78,11 @@ def gen_header(rng, n_pad=None):
             cards[k] = rng.choice(["GBT", "me", "VOYAGER1"])
     if n_pad is None:
         n_pad = rng.choice([0, 0, 0] + list(range(32)))
+        if rng.random() < 0.03:
+            # very long headers are valid too (hundreds of cards: site-specific metadata dumps)
+            n_pad = rng.choice([120, 430, 500, 520, 700])
     for i in range(n_pad):
-        cards["PAD%02d" % i] = i
+        cards["PAD%02d" % i if i < 100 else "P%06d" % i] = i
     # shuffle insertion order (the header is written in dictionary order)
     keys = list(cards)
     rng.shuffle(keys)
